@@ -9,9 +9,11 @@
   C22.DIST  the signed order-hint distance helpers (get_relative_dist in its encoder, common and decoder copies) have
             equal normalised bodies: if they differ one of them is wrong
 """
-from engine.facts import pstr, ptext, strip, callee_name, subexprs, last_field, root_of, AnalysisBroken
+from engine.facts import is_lit, pstr, ptext, strip, callee_name, subexprs, last_field, root_of, AnalysisBroken
 from engine.classes import Classes
 from engine.wrap import wrap_shape
+from engine.reach import reaching
+from engine.symsum import summary
 
 PID = 'C22'
 
@@ -71,10 +73,10 @@ def run(P, rep, tier):
                 fstores.setdefault(t[1], []).append((f, ev))
     memo = {}
 
-    def ok_expr(f, x, N, depthl=0, via=()):
-        """(ok, reason)"""
+    def ok_expr(f, at, x, N, depthl=0, via=()):
+        """(ok, reason) for expression x evaluated just before event `at` of function f"""
         x = strip(x)
-        if x is None or depthl > 6:
+        if x is None or depthl > 8:
             return False, 'unresolved'
         if x[0] == 'l':
             return (0 <= x[1] < N), 'literal %d' % x[1]
@@ -95,11 +97,11 @@ def run(P, rep, tier):
                 return (helpers[n] == N), 'helper %s wraps by %d' % (n, helpers[n])
             return False, 'call to %s' % n
         if x[0] == 'q':
-            a, ra = ok_expr(f, x[2], N, depthl + 1, via)
-            b, rb = ok_expr(f, x[3], N, depthl + 1, via)
+            a, ra = ok_expr(f, at, x[2], N, depthl + 1, via)
+            b, rb = ok_expr(f, at, x[3], N, depthl + 1, via)
             return a and b, 'conditional: %s / %s' % (ra, rb)
-        if x[0] == 'v' and x[2] in ('l',) or (x[0] == 'v' and x[2].startswith('p')):
-            return ok_local(f, x[1], N, depthl + 1, via)
+        if x[0] == 'v' and (x[2] == 'l' or x[2].startswith('p')):
+            return ok_local(f, at, x[1], N, depthl + 1, via)
         if x[0] == 'm':
             return ok_field(x[1], N, depthl + 1, via)
         if x[0] == 'u' and x[1] in ('++x', 'x++', '--x', 'x--'):
@@ -119,45 +121,92 @@ def run(P, rep, tier):
                             return True
         return False
 
-    def ok_local(f, name, N, depthl, via):
-        key = (f.key, name, N)
+    def ok_local(f, at, name, N, depthl, via):
+        """every definition of local/parameter `name` reaching event `at` is wrap-normalised by N"""
+        key = (f.key, at['b'], at['x'], name, N)
         if key in memo:
             return memo[key]
         if key in via:
-            return True, 'recursive'
+            return True, 'cyclic (judged by the other definitions)'
         via = via + (key,)
-        defs = []
-        for ev in f.events(('decl', 'st')):
-            e = ev.get('e')
-            if ev['k'] == 'decl' and ev['n'] == name:
-                if e is not None:
-                    defs.append((ev, e))
-            elif ev['k'] == 'st' and e is not None:
-                t = strip(e[2]) if e[0] in ('a', 'u') else None
-                if t is not None and t[0] == 'v' and t[1] == name:
-                    defs.append((ev, e[3] if e[0] == 'a' and e[1] == '=' else e))
+        defs = reaching(f).at(at, name)
         if not defs:
-            # a parameter: every call site must pass a wrapped value (not followed: conservative)
-            res = (False, 'parameter/undefined %s' % name)
+            res = (False, 'no definition of %s reaches this point' % name)
             memo[key] = res
             return res
         bounded = loop_bound(f, name, N)
-        for ev, rhs in defs:
-            r = strip(rhs)
-            if r[0] == 'u' and r[1] in ('++x', 'x++', '--x', 'x--') or (r[0] == 'a' and r[1] in ('+=', '-=')):
+        res = None
+        # statement form of the norm idiom:  if (x > N-1) x -= N; [else if (x < 0) x += N;]
+        guards = []
+        for d in defs:
+            if isinstance(d, dict) and d['k'] == 'st' and d['e'][0] == 'a' and d['e'][1] in ('-=', '+=') and is_lit(d['e'][3], N):
+                ch = f.ctl_chain(d)
+                gb = f.idom().get(d['b'])
+                if not ch or gb is None:
+                    continue
+                kind, cond, line = ch[0]
+                c = strip(cond)
+                if d['e'][1] == '-=' and kind == 'if' and c and c[0] == 'b' and pstr(strip(c[2])) == name and \
+                        ((c[1] == '>' and is_lit(c[3], N - 1)) or (c[1] == '>=' and is_lit(c[3], N))):
+                    guards.append((d, gb))
+                elif d['e'][1] == '+=' and kind == 'if' and c and c[0] == 'b' and c[1] == '<' and pstr(strip(c[2])) == name and is_lit(c[3], 0):
+                    guards.append((d, gb))
+        gdefs = [g[0] for g in guards]
+        first_guard = None
+        for d, gb in guards:
+            if d['e'][1] == '-=':
+                first_guard = gb
+        for d in defs:
+            if first_guard is not None and any(d is g for g in gdefs):
+                continue
+            if first_guard is not None and isinstance(d, dict) and d['k'] != 'call':
+                # any other definition must flow *through* the guard: it lies before it (not dominated by the guard block)
+                if f.block_dominates(first_guard, at['b']) and not (f.block_dominates(first_guard, d['b']) and d['b'] != first_guard):
+                    continue
+            if isinstance(d, tuple):        # parameter: every call site must pass a wrapped value
+                pi = [i for i, (pn, pt) in enumerate(f.params) if pn == name]
+                sites = P.call_sites(f.name)
+                sites = [(g, cev) for g, cev in sites if g not in C.dead and f in P.resolve(f.name, g)]
+                if not pi or not sites:
+                    res = (False, 'parameter %s with no resolvable call site' % name)
+                    break
+                for g, cev in sites:
+                    args = cev['e'][2]
+                    if pi[0] >= len(args):
+                        res = (False, 'call of %s in %s passes too few arguments' % (f.name, g.name))
+                        break
+                    ok, why = ok_expr(g, cev, args[pi[0]], N, depthl, via)
+                    if not ok:
+                        res = (False, 'argument %s of %s at %s: %s' % (name, f.name, g.loc(cev), why))
+                        break
+                if res:
+                    break
+                continue
+            ev = d
+            e = ev.get('e')
+            if ev['k'] == 'call':
+                res = (False, '&%s passed to a callee at %s' % (name, f.loc(ev)))
+                break
+            if ev['k'] == 'decl':
+                if e is None:
+                    res = (False, '%s may be used uninitialised (declared at %s)' % (name, f.loc(ev)))
+                    break
+                rhs = e
+            elif e[0] == 'a' and e[1] == '=':
+                rhs = e[3]
+            else:
                 if bounded:
                     continue
                 res = (False, '%s is stepped without a wrap at %s' % (name, f.loc(ev)))
-                memo[key] = res
-                return res
-            if bounded and r[0] == 'l':
+                break
+            if bounded and strip(rhs)[0] == 'l':
                 continue
-            ok, why = ok_expr(f, r, N, depthl, via)
+            ok, why = ok_expr(f, ev, rhs, N, depthl, via)
             if not ok:
-                res = (False, '%s = %s at %s: %s' % (name, pstr(r)[:60], f.loc(ev), why))
-                memo[key] = res
-                return res
-        res = (True, 'every definition of %s is wrapped by %d%s' % (name, N, ' / loop-bounded' if bounded else ''))
+                res = (False, '%s = %s at %s: %s' % (name, pstr(strip(rhs))[:60], f.loc(ev), why))
+                break
+        if res is None:
+            res = (True, 'every definition of %s reaching here is wrapped by %d%s (%d definitions)' % (name, N, ' / loop-bounded' if bounded else '', len(defs)))
         memo[key] = res
         return res
 
@@ -166,7 +215,7 @@ def run(P, rep, tier):
         if key in memo:
             return memo[key]
         if key in via:
-            return True, 'recursive'
+            return True, 'cyclic (judged by the other stores)'
         via = via + (key,)
         ss = fstores.get(fid, [])
         if not ss:
@@ -175,13 +224,11 @@ def run(P, rep, tier):
             return res
         for f, ev in ss:
             e = ev['e']
-            if C.single_threaded(f) and e[0] == 'a' and strip(e[3])[0] == 'l' and strip(e[3])[1] == 0:
-                continue
             if e[0] != 'a' or e[1] != '=':
                 res = (False, 'field %s is stepped without a wrap at %s' % (fid, f.loc(ev)))
                 memo[key] = res
                 return res
-            ok, why = ok_expr(f, e[3], N, depthl, via)
+            ok, why = ok_expr(f, ev, e[3], N, depthl, via)
             if not ok:
                 res = (False, 'store to %s at %s: %s' % (fid, f.loc(ev), why))
                 memo[key] = res
@@ -202,7 +249,7 @@ def run(P, rep, tier):
                 rep.note('subscript of %s in dead function %s ignored (%s)' % (lf, f.name, pstr(strip(ev['i']))))
                 continue
             N = rings[lf]
-            ok, why = ok_expr(f, ev['i'], N)
+            ok, why = ok_expr(f, ev, ev['i'], N)
             k = (f.name, lf, pstr(strip(ev['i'])))
             nsite[k] = nsite.get(k, 0) + 1
             if nsite[k] > 1:
@@ -214,8 +261,8 @@ def run(P, rep, tier):
     # ---------------- REARM: picture_number += DEPTH on an entry of ring R uses depth(R)
     entry_rec = {}
     for r in P.record('EncodeContext')['fields']:
-        if REC + r['n'] in rings and r.get('rec'):
-            entry_rec[r['rec']] = REC + r['n']
+        if REC + r['n'] in rings and r.get('t', '').endswith('**'):
+            entry_rec[r['t'].replace('*', '').replace('struct ', '').strip()] = REC + r['n']
     n = 0
     for f in P.fns:
         if f.lib != 'Encoder' or f.nocfg or f in C.dead:
@@ -237,44 +284,10 @@ def run(P, rep, tier):
         raise AnalysisBroken('only %d copies of the order-hint distance helper found' % len(sib))
 
     def norm(g):
-        names = {}
-        out = []
-        for i, (pn, pt) in enumerate(g.params):
-            names[pn] = 'a%d' % i
-
-        def nm(e):
-            e = strip(e)
-            if e is None:
-                return ''
-            k = e[0]
-            if k == 'v':
-                if e[1] not in names:
-                    names[e[1]] = 'l%d' % len(names)
-                return names[e[1]]
-            if k == 'l':
-                return str(e[1])
-            if k == 'm':
-                return '.' + e[1].split('.', 1)[1]          # ohi->order_hint_bits / seq->order_hint_info.order_hint_bits: field tail
-            if k == 'u':
-                return e[1] + '(' + nm(e[2]) + ')'
-            if k in ('b', 'a'):
-                return '(' + nm(e[2]) + e[1] + nm(e[3]) + ')'
-            if k == 'q':
-                return '(' + nm(e[1]) + '?' + nm(e[2]) + ':' + nm(e[3]) + ')'
-            return pstr(e)
-        for ev in g.events(('st', 'decl', 'ret')):
-            e = ev.get('e')
-            if ev['k'] == 'decl':
-                names.setdefault(ev['n'], 'l%d' % len(names))
-                if e is not None:
-                    out.append('%s=%s' % (names[ev['n']], nm(e)))
-            elif e is not None:
-                out.append(ev['k'] + ':' + nm(e))
-        for bid in sorted(g.reach()):
-            c = g.blocks[bid].get('fullcond')
-            if c is not None:
-                out.append('if:' + nm(c))
-        return sorted(out)
+        sm = summary(g)
+        if sm is None:
+            raise AnalysisBroken('order-hint distance helper %s at %s is outside the loop-free summary language' % (g.name, g.loc()))
+        return sm
     groups = {}
     for g in sib:
         groups.setdefault(tuple(norm(g)), []).append(g)
@@ -283,5 +296,5 @@ def run(P, rep, tier):
         same = g in ref
         rep.ob('C22.DIST', 'get_relative_dist@%s' % g.file.rsplit('/', 1)[-1], same, g.loc(),
                'agrees with %d sibling(s)' % (len(ref) - 1) if same else
-               'differs from the majority of its siblings (%s): %s vs %s' % ([x.loc() for x in ref][:2], norm(g)[:4], norm(ref[0])[:4]))
+               'differs from the majority of its siblings (%s): %s vs %s' % ([x.loc() for x in ref][:2], norm(g), norm(ref[0])))
     rep.floor('C22.DIST', 3)
